@@ -26,8 +26,9 @@ func (sel *Selection) Find(path string) (*Selection, error) {
 		return nil, err
 	}
 	if qmark := strings.IndexRune(p, '?'); qmark >= 0 {
-		// use URL parser just to decode the query parameters
-		u, err := url.Parse(p)
+		// use URL parser just to decode the query parameters, the path before them is not a
+		// URL (a ':' in its first segment would be taken for a scheme)
+		u, err := url.Parse(p[qmark:])
 		if err != nil {
 			return nil, err
 		}
